@@ -179,6 +179,7 @@ func MultiPartFormParameter(name, description string) *Parameter {
 
 // Route creates a new Route using the RouteBuilder and add to the ordered list of Routes.
 func (w *WebService) Route(builder *RouteBuilder) *WebService {
+	simLock("WebService.Route", &w.routesLock, true)
 	w.routesLock.Lock()
 	defer w.routesLock.Unlock()
 	builder.copyDefaults(w.produces, w.consumes)
@@ -191,6 +192,7 @@ func (w *WebService) RemoveRoute(path, method string) error {
     if !w.dynamicRoutes {
         return errors.New("dynamic routes are not enabled.")
     }
+    simLock("WebService.RemoveRoute", &w.routesLock, true)
     w.routesLock.Lock()
     defer w.routesLock.Unlock()
     newRoutes := []Route{}
@@ -229,6 +231,7 @@ func (w *WebService) Routes() []Route {
 		return w.routes
 	}
 	// Make a copy of the array to prevent concurrency problems
+	simLock("WebService.Routes", &w.routesLock, false)
 	w.routesLock.RLock()
 	defer w.routesLock.RUnlock()
 	result := make([]Route, len(w.routes))
